@@ -16,6 +16,7 @@ import (
 	"fmt"
 	"go/ast"
 	"go/types"
+	"golang.org/x/tools/go/types/typeutil"
 )
 
 func init() {
@@ -32,6 +33,7 @@ func init() {
 				p.anchorFail("converters.CachedConverter.Data / query.TagDetails.Uncertain")
 				return
 			}
+			preds := dataFilterPredicates(p)
 			raiseLoop := func(info *types.Info, body ast.Node) map[ast.Node]bool {
 				out := map[ast.Node]bool{}
 				inspectShallow(body, func(x ast.Node) bool {
@@ -45,6 +47,10 @@ func init() {
 						switch s := y.(type) {
 						case *ast.SelectorExpr:
 							if s.Sel.Name == "FeatureFilterData" {
+								testsData = true
+							}
+						case *ast.CallExpr:
+							if fn, ok := typeutil.Callee(info, s).(*types.Func); ok && preds[fn.Origin()] {
 								testsData = true
 							}
 						case *ast.AssignStmt:
